@@ -727,10 +727,10 @@ Definition step_core (st : state) (o : op) : state * out :=
   | OInstallHooks d t => install_hooks st d t
   end.
 
-Definition tick (st : state) : state := mkState (st_dirs st) (st_leaves st) (S (st_clock st)).
+Definition tick (k : nat) (st : state) : state := mkState (st_dirs st) (st_leaves st) k.
 
 Definition step (st : state) (o : op) : state * out :=
-  let '(st1, r) := step_core st o in (tick st1, r).
+  let '(st1, r) := step_core st o in (tick (S (st_clock st)) st1, r).
 
 Fixpoint run (st : state) (ops : list op) : state :=
   match ops with [] => st | o :: t => run (fst (step st o)) t end.
